@@ -189,6 +189,7 @@ func (rm *RequestManager) requestTask(requestID graphsync.RequestID) executor.Re
 		InProgressErr:        ipr.inProgressErr,
 		ReconciledLoader:     ipr.reconciledLoader,
 		Empty:                false,
+		PanicCallback:        rm.panicCallback,
 	}
 }
 
